@@ -239,6 +239,7 @@ func decodeCase(why string, kinds []int, str bool, in []byte, mustFail bool, emi
 	js := caseJS{Mode: 0, Kinds: kinds, Str: str, Input: in, Why: why}
 	lastJS = js
 	status, vals, rest := decodeSeq(kinds, str, in)
+	lastStatus = status
 	c.Count(fmt.Sprintf("decode:%s:status=%d", why, status))
 	sh, ix := -1, 0
 	if emit {
@@ -284,6 +285,18 @@ func decodeCase(why string, kinds []int, str bool, in []byte, mustFail bool, emi
 		}
 	}
 }
+
+// shortCase is decodeCase for the exhaustive short-input stream; it returns the status.
+func shortCase(why string, kinds []int, str bool, in []byte) int {
+	mustFail := false
+	if len(kinds) == 1 && len(in) < minSize[kinds[0]] {
+		mustFail = true
+	}
+	decodeCase(why, kinds, str, in, mustFail, true)
+	return lastStatus
+}
+
+var lastStatus int
 
 // encodeCase: Put* the values, append trailer, decode back.
 func encodeCase(why string, vals []val, trail []byte, emit bool) []byte {
@@ -616,8 +629,76 @@ func main() {
 			}
 		}
 	}
+	// (3b) EXHAUSTIVE short inputs: every length 0..8 for string/bytes with every class of
+	// first byte (small lengths, 250..253, the long-form marker 254, the invalid 255) and
+	// three fills; every length 0..34 for the fixed-width decoders; type-id prefixes with every
+	// shorter-than-needed tail for bool / vector. The oracle is an independent restatement of
+	// the TL rules: success iff the input holds a complete value.
+	{
+		fills := []func(n int) []byte{
+			func(n int) []byte { return make([]byte, n) },
+			func(n int) []byte { return bytes.Repeat([]byte{0xff}, n) },
+			func(n int) []byte { return r.Bytes(n) },
+		}
+		pad4 := func(n int) int { return (n + 3) / 4 * 4 }
+		bytesComplete := func(in []byte) bool { // TL string: does `in` start with a complete value?
+			if len(in) == 0 || in[0] == 255 {
+				return false
+			}
+			if in[0] == 254 {
+				if len(in) < 4 {
+					return false
+				}
+				l := int(in[1]) | int(in[2])<<8 | int(in[3])<<16
+				return len(in) >= pad4(l+4)
+			}
+			return len(in) >= pad4(int(in[0])+1)
+		}
+		firsts := []int{0, 1, 2, 3, 4, 5, 6, 7, 8, 9, 250, 251, 252, 253, 254, 255}
+		for l := 0; l <= 8; l++ {
+			for _, f0 := range firsts {
+				if l == 0 && f0 != 0 {
+					continue
+				}
+				for fi, fill := range fills {
+					in := fill(l)
+					if l > 0 {
+						in[0] = byte(f0)
+					}
+					for _, str := range []bool{false, true} {
+						st := shortCase("exhaustive-bytes", []int{kBytes}, str, in)
+						if want := bytesComplete(in); (st == 0) != want && st != 9 {
+							c.Violate("short-or-malformed-accepted", fmt.Sprintf("decoding %s as bytes/string: status %d, a complete value is present: %v (fill %d)", short(in), st, want, fi), -1, 0, caseJS{Mode: 0, Kinds: []int{kBytes}, Str: str, Input: in, Why: "exhaustive-bytes"})
+						}
+					}
+				}
+			}
+		}
+		for _, k := range []int{kInt, kLong, kDouble, kBool, kInt128, kInt256, kVector} {
+			for l := 0; l <= 34; l++ {
+				for _, fill := range fills {
+					in := fill(l)
+					st := shortCase("exhaustive-fixed", []int{k}, false, in)
+					if l < minSize[k] && st == 0 {
+						c.Violate("short-or-malformed-accepted", fmt.Sprintf("decoding %d bytes as %s succeeded", l, kindName[k]), -1, 0, caseJS{Mode: 0, Kinds: []int{k}, Input: in, Why: "exhaustive-fixed"})
+					}
+				}
+			}
+		}
+		ids := [][]byte{{0x15, 0xc4, 0xb5, 0x1c}, {0xb5, 0x75, 0x72, 0x99}, {0x37, 0x97, 0x79, 0xbc}}
+		for _, id := range ids {
+			for tail := 0; tail <= 5; tail++ {
+				for _, fill := range fills {
+					in := append(append([]byte{}, id...), fill(tail)...)
+					shortCase("exhaustive-id-prefix", []int{kVector}, false, in)
+					shortCase("exhaustive-id-prefix", []int{kBool}, false, in)
+					shortCase("exhaustive-id-prefix", []int{kBool, kBytes}, false, in)
+				}
+			}
+		}
+	}
 	// (4) arbitrary bytes as each primitive
-	for i := 0; i < c.N(90, 2500); i++ {
+	for i := 0; i < c.N(45, 2500); i++ {
 		l := r.Intn(41)
 		if r.Chance(1, 6) {
 			l = r.Range(240, 300)
